@@ -29,6 +29,7 @@ class Harness:
         self.covers = attrs.get("covers", "all")      # all | any  (vacuity guard)
         self.leak = attrs.get("leak", "0") == "1"     # run with CBMC --memory-leak-check
         self.nounwind = attrs.get("nounwind", "0") == "1"   # liar loops: no unwinding assertions (bounded)
+        self.stubs = attrs.get("_stubs", [])
 
 
     def qualified(self):
@@ -53,7 +54,11 @@ def load_harnesses():
         lines = open(f).read().split("\n")
         parent = None
         pending = None
+        stubs = []
         for n, l in enumerate(lines, 1):
+            ms = re.match(r"^\s*#\[kani::stub\((.*)\)\]", l)
+            if ms:
+                stubs.append(ms.group(1).replace(" ", ""))
             m = re.match(r"^\s*//\s*@parent\s+(\S+)", l)
             if m:
                 parent = m.group(1)
@@ -68,8 +73,11 @@ def load_harnesses():
                 continue
             m = re.match(r"^\s*(?:pub\s+)?(?:unsafe\s+)?fn\s+(\w+)", l)
             if m and pending is not None:
+                pending["_stubs"] = stubs
                 hs.append(Harness(m.group(1), f, parent, pending, n))
                 pending = None
+            if m:
+                stubs = []
         if parent is None and hs and hs[-1].file == f:
             raise InfraError("harness file without @parent: " + f)
     names = [h.name for h in hs]
